@@ -360,6 +360,41 @@ def paired_run(rep, cases, oracle, nontrivial, profile="dev", need_driver=True, 
             "distinct": len(keys), "hist": hist, "n": len(cases)}
 
 
+def hypothesis_check(rep, decl_lines, expect_unfit=()):
+    """Evaluate the decidable versions of the theorems' hypotheses (Model/Hyp.lean; soundness in Lemmas/Hyp.lean) on
+    every declared corpus type (`T` lines) / instance (`V` lines) with the Lean driver.  A corpus object outside the
+    hypotheses would make the theorems say nothing about it: reported (the proof layer then does not cover what is
+    run).  `fits` may fail only for the labels in `expect_unfit` (nodes with more than 2^63 children: finding F5)."""
+    dok, dmsg = build_driver()
+    if not dok:
+        return {}
+    q, meta = [], {}
+    for l in decl_lines:
+        f = l.split(" ")
+        if f[0] == "T":
+            q.append(f"Tw w{len(q)} {f[2]}")
+        elif f[0] == "V":
+            q.append(f"Vw w{len(q)} {f[2]} {f[3]}")
+        else:
+            continue
+        meta[f"w{len(q) - 1}"] = l[:120]
+    drc, out, derr = run_lines(driver_bin(), list(decl_lines) + q)
+    stats = {"objects": len(q), "wf": 0, "small": 0, "fits": 0, "outside": []}
+    for cid, decl in meta.items():
+        o = out.get(cid, "")
+        flags = dict(x.split("=") for x in o.split(" ") if "=" in x)
+        bad = [k for k, v in flags.items() if v != "1" and not (k == "fits" and any(e in decl for e in expect_unfit))]
+        for k, v in flags.items():
+            if v == "1":
+                stats[k] = stats.get(k, 0) + 1
+        if not flags or bad:
+            stats["outside"].append({"decl": decl, "flags": o})
+    if stats["outside"]:
+        rep.violation("proof", {"what": "corpus objects outside the hypotheses of the theorems (WF / Small / Fits): the "
+                                        "theorems do not speak about them", "objects": stats["outside"][:5]}, no_input=True)
+    return stats
+
+
 def run_pydriver(lines):
     """the real Python client (py/miniconf-mqtt in /repo) driven through stub paho/aiomqtt packages"""
     env = dict(ENV)
